@@ -58,6 +58,13 @@ Sorted(v) == CHOOSE s \in [1..3 -> {-1, 0, 1, 2}] :
                 /\ \A x \in {-1, 0, 1, 2} : Cardinality({i \in 1..3 : s[i] = x}) = Cardinality({i \in 1..3 : v[i] = x})
 OneHot(i, n) == [k \in 1..n |-> IF k - 1 = i THEN 1 ELSE 0]           \* indices outside 0..n-1 give a zero row
 
+\* ---- dot_general on 2x2 integer matrices: contraction over axis lc of A and axis rc of B (0-based, as in JAX)
+M2 == {<<<<a, b>>, <<c, d>>>> : a \in {0, 1}, b \in {1, 2}, c \in {0, -1}, d \in {0, 1}}   \* b # c: never symmetric
+AElt(A, lc, i, k) == IF lc = 1 THEN A[i][k] ELSE A[k][i]
+BElt(B, rc, k, j) == IF rc = 0 THEN B[k][j] ELSE B[j][k]
+DotGeneral(A, B, lc, rc) == [i \in 1..2 |-> [j \in 1..2 |-> AElt(A, lc, i, 1) * BElt(B, rc, 1, j) + AElt(A, lc, i, 2) * BElt(B, rc, 2, j)]]
+Tr2(A) == [i \in 1..2 |-> [j \in 1..2 |-> A[j][i]]]
+
 Cases ==
     {[k |-> "unary", op |-> op, x |-> x2] : op \in UnaryOps, x2 \in F2}
     \cup {[k |-> "binary", op |-> op, a |-> a, b |-> b] : op \in BinaryOps, a \in I, b \in D}
@@ -65,6 +72,7 @@ Cases ==
     \cup {[k |-> "clamp", lo |-> lo, x |-> x, hi |-> hi] : lo \in -2..1, x \in I, hi \in 1..3}
     \cup {[k |-> "onehot", i |-> i] : i \in -2..4}
     \cup {[k |-> "vec", op |-> op, v |-> v] : op \in {"argmax", "argmin", "cumsum", "cumsum_rev", "sort"}, v \in V3}
+    \cup {[k |-> "dot", lc |-> lc, rc |-> rc, A |-> A, B |-> B] : lc \in {0, 1}, rc \in {0, 1}, A \in M2, B \in M2}
 
 Result(c) ==
     CASE c.k = "unary" -> Unary(c.op, c.x)
@@ -72,9 +80,10 @@ Result(c) ==
       [] c.k = "ipow" -> IPow(c.a, c.n)
       [] c.k = "clamp" -> Max2(c.lo, Min2(c.x, c.hi))
       [] c.k = "onehot" -> OneHot(c.i, 3)
-      [] c.k = "vec" -> CASE c.op = "argmax" -> ArgBest(c.v, Gt) - 1 [] c.op = "argmin" -> ArgBest(c.v, Lt) - 1
+      [] c.k = "vec" -> (CASE c.op = "argmax" -> ArgBest(c.v, Gt) - 1 [] c.op = "argmin" -> ArgBest(c.v, Lt) - 1
                           [] c.op = "cumsum" -> CumSum(c.v, FALSE) [] c.op = "cumsum_rev" -> CumSum(c.v, TRUE)
-                          [] c.op = "sort" -> Sorted(c.v)
+                          [] c.op = "sort" -> Sorted(c.v))
+      [] c.k = "dot" -> DotGeneral(c.A, c.B, c.lc, c.rc)
 
 VARIABLES case, res, done
 vars == <<case, res, done>>
@@ -97,4 +106,7 @@ VecLaws == (done /\ case.k = "vec") =>
     /\ (case.op = "argmax" => \A j \in 1..3 : case.v[j] <= case.v[res + 1])
     /\ (case.op = "cumsum" => res[3] = case.v[1] + case.v[2] + case.v[3])
     /\ (case.op = "cumsum_rev" => res[1] = case.v[1] + case.v[2] + case.v[3])
+DotLaws == (done /\ case.k = "dot") =>
+    /\ res = DotGeneral(IF case.lc = 0 THEN Tr2(case.A) ELSE case.A, IF case.rc = 1 THEN Tr2(case.B) ELSE case.B, 1, 0)
+    /\ Tr2(res) = DotGeneral(case.B, case.A, case.rc, case.lc)
 =============================================================================
